@@ -347,7 +347,9 @@ def contracts():
                        'calls[0][1][0] == "%s" and calls[0][1][1] is p[2] '
                        'and calls[0][1][2] == %r and p[0] == calls[0][2]'
                        % (sym, alias)],
-              serves=('C03', 'C02'), native=False)
+              # (C15: a sign in front of a literal stays an operator call -
+              # `-true` goes through the numeric overloads, which refuse it)
+              serves=('C03', 'C02', 'C15'), native=False)
         c(G + 'p_unary', name='parser.p_unary/suffix/%s' % node_cls,
           params=dict(this=parser, p=oprod(['node', ('!', 'OP_C')],
                                            node_cls)),
